@@ -340,6 +340,31 @@ func execDate(f []string) string {
 			return "ok " + dDTS(p)
 		}
 		return "bad-op"
+	case "dtz": // Y M D h m s ns offsetSeconds hexfmt: wall clock in a fixed-offset zone -> format -> parse with the same format
+		if len(a) != 9 {
+			return "bad-op"
+		}
+		n7, ok7 := dInts(a[0:8])
+		f, okf := dHex(a[8])
+		if !ok7 || !okf {
+			return "bad-op"
+		}
+		zone, zerr := value.NewTimezoneFromOffsetErr(value.TimeSpan(n7[7]) * value.Second)
+		if !zerr.IsUndefined() {
+			return "ok zone-" + dErr(zerr)
+		}
+		t := value.NewDateTime(n7[0], n7[1], n7[2], n7[3], n7[4], n7[5], 0, 0, n7[6], zone)
+		s, err := t.Format(f)
+		if !err.IsUndefined() {
+			return dErr(err)
+		}
+		_, o1 := t.ToGoTime().Zone()
+		p, err := value.ParseDateTime(f, s)
+		if !err.IsUndefined() {
+			return fmt.Sprintf("ok %s | %s %d | %s", dHexOut(s), dDT(t), o1, dErr(err))
+		}
+		_, o2 := p.ToGoTime().Zone()
+		return fmt.Sprintf("ok %s | %s %d | %s %d", dHexOut(s), dDT(t), o1, dDT(p), o2)
 	case "dt": // datetime ops; a datetime is Y M D h m s ns (7 ints), UTC
 		if len(a) < 1 {
 			return "bad-op"
